@@ -47,7 +47,10 @@ def _build():
                 fl = {x: "" for x in COMPS}
                 fl[comp] = c
                 out.append({"fmt": mk(sep_bits(*[fl[x] for x in COMPS])), "name": "c13_%s_%s_%s" % (radix, comp[:3], c),
-                            "radix": radix, "cls": comp + "-only", "flags": fl, "int": comp == "integer"})
+                            "radix": radix, "cls": comp + "-only", "flags": fl,
+                            # the integer parsers also get one fraction-only and one exponent-only separator format
+                            # (no integer separator flag at all: separator-free integers must parse as without the byte)
+                            "int": comp == "integer" or c == "i"})
         # two genuinely mixed ones
         for fl in ({"integer": "il", "fraction": "it", "exponent": "lt"}, {"integer": "tc", "fraction": "l", "exponent": "ic"}):
             out.append({"fmt": mk(sep_bits(*[fl[x] for x in COMPS])),
